@@ -13,7 +13,7 @@ REQUIRED = ["pe_total_match", "pe_total_build", "pe_total_validate", "pe_total_r
             "match_sound", "filter_sound_and_complete",
             "forged_mapping_rejected", "surplus_entry_rejected", "forged_entry_rejected", "incomplete_map_rejected",
             "field_values_faithful", "two_capture_groups_is_error",
-            "match_sound_rules", "match_complete_or_error", "match_complete_or_error_rules",
+            "match_sound_rules", "match_sound_requirements", "match_error_requirements", "wf_count_pos", "match_complete_or_error", "match_complete_or_error_rules",
             "wallet_verifier_agree_partial", "wallet_verifier_disagree_witness",
             "old_code_max_zero_selects_all", "old_code_min_above_max_returns_partial",
             "fact_apply_max_test_first", "fact_apply_rejects_min_above_max",
